@@ -3,6 +3,7 @@ package main
 // ssah.go: small reusable SSA/CFG queries (the PATH helpers of DESIGN.md §2).
 
 import (
+	"fmt"
 	"go/constant"
 	"go/token"
 	"go/types"
@@ -381,4 +382,66 @@ func byteSliceLit(v ssa.Value) ([]byte, bool) {
 		}
 	}
 	return out, true
+}
+
+// unitStrideOver reports whether idx is the index of a loop that visits every element of slice parameter `param`
+// exactly once in order: a range-style index (phi from -1, +1 each iteration) or a for-style index (phi from 0, +1),
+// with no other way of advancing it.
+func unitStrideOver(idx ssa.Value, param ssa.Value) (bool, string) {
+	isPlusOne := func(v ssa.Value, ph *ssa.Phi) bool {
+		bo, ok := v.(*ssa.BinOp)
+		if !ok || bo.Op != token.ADD || bo.X != ssa.Value(ph) {
+			return false
+		}
+		one, ok := constInt(bo.Y)
+		return ok && one == 1
+	}
+	var ph *ssa.Phi
+	var start int64
+	if bo, ok := idx.(*ssa.BinOp); ok {
+		p2, ok := bo.X.(*ssa.Phi)
+		if !ok || !isPlusOne(idx, p2) {
+			return false, "index is not a loop counter"
+		}
+		ph, start = p2, -1
+	} else if p2, ok := idx.(*ssa.Phi); ok {
+		ph, start = p2, 0
+	} else {
+		return false, "index is not a loop counter"
+	}
+	sawInit := false
+	for _, e := range ph.Edges {
+		if k, ok := constInt(e); ok {
+			if k != start {
+				return false, fmt.Sprintf("loop counter starts at %d", k)
+			}
+			sawInit = true
+			continue
+		}
+		if !isPlusOne(e, ph) {
+			return false, "the loop counter is advanced by something other than +1 (elements can be skipped)"
+		}
+	}
+	if !sawInit {
+		return false, "loop counter has no constant start"
+	}
+	// bound: some comparison counter < len(param) controls the loop
+	bounded := false
+	var cmpVal ssa.Value = ph
+	if start == -1 {
+		cmpVal = idx
+	}
+	for _, r := range refsOf(cmpVal) {
+		bo, ok := r.(*ssa.BinOp)
+		if !ok || bo.Op != token.LSS || bo.X != cmpVal {
+			continue
+		}
+		if cl, ok := isBuiltinCall(bo.Y, "len"); ok && cl.Call.Args[0] == param {
+			bounded = true
+		}
+	}
+	if !bounded {
+		return false, "loop is not bounded by len of the whole parameter"
+	}
+	return true, ""
 }
